@@ -216,13 +216,38 @@ def run(ctx):
         t = stl(a.args[0])
         ts = strip(t) if t else None
         kind = None
+
+        def leaves_(x):
+            x = strip(x)
+            return leaves_(x[2]) + leaves_(x[3]) if x[0] == "ite" else [x]
+        lv_ = leaves_(ts) if ts is not None else []
         if ts is not None and ts[0] == "await" and call_is(strip(ts[1]), f"{LAN}._read"):
             kind = "read"
+        elif lv_ and any(x[0] == "await" and call_is(strip(x[1]), f"{LAN}._read") for x in lv_) and \
+                all((x[0] == "await" and call_is(strip(x[1]), f"{LAN}._read")) or x == ("const", None) for x in lv_):
+            kind = "read"       # the Optional result of a helper that returns the decoded read (None = nothing to add, guarded)
         elif ts is not None and ts[0] == "iter" and call_is(strip(ts[1]), f"{LAN}._read_available"):
             kind = "drain"
         srcs.append(kind)
         ctx.ob("C01.c", send.qual, kind is not None, "an element of the result is a decoded read", func=send.qual, file=send.module.rel, node=a,
                fail="something other than a decoded read is added to the response list")
+    # drains written as comprehensions: responses = [r async for r in self._read_available()] / responses.extend([...]) / responses += [...]
+    parent_ = {}
+    for n in ast.walk(send.node):
+        for c in ast.iter_child_nodes(n):
+            parent_[c] = n
+    for n in ast.walk(send.node):
+        if not isinstance(n, ast.ListComp):
+            continue
+        t = ss.ta.terms_at.get(n)
+        if t is None or t[0] != "comp" or len(t[3]) != 1 or t[3][0][2] or t[2] != ("bound", t[3][0][0]) or not call_is(strip(t[3][0][1]), f"{LAN}._read_available"):
+            continue
+        p_ = parent_.get(n)
+        into_result = (isinstance(p_, ast.Assign) and all(isinstance(x, ast.Name) and x.id in ret_names for x in p_.targets)) or \
+            (isinstance(p_, ast.AugAssign) and isinstance(p_.op, ast.Add) and isinstance(p_.target, ast.Name) and p_.target.id in ret_names) or \
+            (isinstance(p_, ast.Call) and isinstance(p_.func, ast.Attribute) and p_.func.attr == "extend" and isinstance(p_.func.value, ast.Name) and p_.func.value.id in ret_names)
+        if into_result:
+            srcs.append("drain")
     ctx.count("result_sources", len(srcs))
     ctx.ob("C01.c", send.qual, srcs.count("drain") >= 2 and srcs.count("read") >= 1, "frames read before the write and after the response are appended (unsolicited frames are kept, not dropped)",
            func=send.qual, file=send.module.rel, construct="pre-send and post-response drains", detail={"sources": srcs},
@@ -234,7 +259,8 @@ def run(ctx):
     ra = ctx.fn(f"{LAN}._read_available")
     ys = [n for n in ast.walk(ra.node) if isinstance(n, ast.Yield)]
     ra_ok = len(ys) == 1 and isinstance(ys[0].value, ast.Await) and isinstance(ys[0].value.value, ast.Call) and attr_call(ys[0].value.value, "_read") \
-        and any(k.arg == "timeout" and isinstance(k.value, ast.Constant) and k.value.value == 0 for k in ys[0].value.value.keywords)
+        and any(k.arg == "timeout" and prog.fold_or_none(k.value, ra.module, ra.cls) == 0 and prog.fold_or_none(k.value, ra.module, ra.cls) is not False
+                for k in ys[0].value.value.keywords)
     ctx.ob("C01.c", ra.qual, ra_ok, "_read_available yields every queued frame without blocking", func=ra.qual, file=ra.module.rel, construct="_read_available",
            fail="_read_available no longer yields each queued decoded frame")
     v3w = ctx.fn(f"{V3}.write")
